@@ -24,5 +24,8 @@ for d in sorted(os.listdir(os.path.join(ROOT, 'seeded'))):
            'detected': p.returncode == 1}
     json.dump(res, open(os.path.join(sd, 'check_result.json'), 'w'), indent=1)
     rows.append((d, f"exit {p.returncode} " + ('; '.join(lines[:4]) if lines else ' '.join(res['stderr_tail'])[:300])))
+# the evidence files were rewritten by runs on a CHANGED tree: restore them from the unchanged tree
+for _pid in sorted({'C04', 'C05', 'C07', 'C19'}):
+    subprocess.run([os.path.join(ROOT, 'check'), _pid], cwd=ROOT, capture_output=True, text=True)
 for r in rows:
     print(r[0], '->', r[1])
